@@ -310,10 +310,19 @@ def w_spend_cli(ctx, wid, seed, examples):
     core.hyp_campaign(ctx, 'spend-cli', spend_cli_cases(), check_spend_cli, examples, seed, lambda c: c)
 
 
+def w_zoption(ctx, wid, seed):
+    """the option -z / --allow-disabled-opcodes reaches the non-interactive run too (the 15 re-enabled opcodes, script on stdin and as argument; without
+    the option the run ends with the disabled-opcode error): the directed sample of C17, counted here as well"""
+    from . import c17
+    c17.w_cli(ctx, wid, seed)
+    for v in ctx.violations:
+        v['campaign'] = 'zoption'
+
+
 def run(tier, t0):
     W = core.WORKERS
     n = 600 if tier == "quick" else 8000
-    tasks = [(w_cli, dict(examples=n)) for _ in range(W)] + [(w_repl, dict(examples=max(10, n // 12))) for _ in range(max(2, W // 4))] + [(w_long, dict(examples=30))] + [(w_spend_cli, dict(examples=max(25, n // 10))) for _ in range(max(2, W // 4))]
+    tasks = [(w_zoption, dict())] + [(w_cli, dict(examples=n)) for _ in range(W)] + [(w_repl, dict(examples=max(10, n // 12))) for _ in range(max(2, W // 4))] + [(w_long, dict(examples=30))] + [(w_spend_cli, dict(examples=max(25, n // 10))) for _ in range(max(2, W // 4))]
     m = core.parallel(PID, tasks)
     return core.finish(PID, tier, m, RULE, t0, min_nontrivial=500 if tier == 'quick' else 20000,
                        assumptions=['reference interpreter for the expected outcome', 'scripts are passed as 0x<hex> and stack items as 0x<hex> (forms that cannot be mistaken for options or numbers)',
@@ -321,6 +330,10 @@ def run(tier, t0):
 
 
 def replay(rec):
+    if rec.get('campaign') == 'zoption':
+        ctx = core.Ctx(PID)
+        w_zoption(ctx, 0, 0)
+        return (not ctx.violations), str(ctx.violations[:1])
     if rec.get('campaign') == 'spend-cli':
         try:
             check_spend_cli(rec['case'], core.Ctx(PID))
